@@ -276,6 +276,6 @@ PROBES = {
 
 STREAMS = {
     "worlds": Stream("worlds", oracle=oracle, strategy=strategy, quick=480, thorough=0, shards_quick=16, shards_thorough=16),
-    "worlds_large": Stream("worlds_large", oracle=oracle, strategy=strategy_thorough, quick=0, thorough=5000, shards_quick=16, shards_thorough=16),
-    "real_fsdp": Stream("real_fsdp", oracle=oracle_real, strategy=strategy_real, quick=48, thorough=1500, shards_quick=8, shards_thorough=16),
+    "worlds_large": Stream("worlds_large", oracle=oracle, strategy=strategy_thorough, quick=0, thorough=2500, shards_quick=16, shards_thorough=16),
+    "real_fsdp": Stream("real_fsdp", oracle=oracle_real, strategy=strategy_real, quick=48, thorough=500, shards_quick=8, shards_thorough=16),
 }
